@@ -134,6 +134,10 @@ def check(pm: ProgramModel, ctx: Ctx) -> None:
                     note("C18-TABLES", f"{kind_}-pair:root={root}", False,
                          f"`{text}` is reported {kind_} but left_right_features raises {pair[1]}")
                     continue
+                if not (isinstance(pair, tuple) and len(pair) == 2):
+                    note("C18-TABLES", f"{kind_}-pair:root={root}", False,
+                         f"`{text}` is reported {kind_} but left_right_features gives {pair!r}, not a pair")
+                    continue
                 l, r = pair
                 ok = isinstance(l, str) and isinstance(r, str) and l in NAMES and r in NAMES
                 if ok:
